@@ -378,6 +378,11 @@ func genDiffCase(r *Rng) []Op {
 	ops = append(ops, Op{"cmd diff pairs=src/a.wsp>dst/a.wsp " + w, true})
 	// the verdict is symmetric
 	ops = append(ops, Op{"cmd diff pairs=dst/a.wsp>src/a.wsp swap=1 " + w, true})
+	if r.Chance(1, 3) {
+		// the same comparison with the source behind `whispertool server`: a file missing
+		// there is a reported difference too, not another kind of error
+		ops = append(ops, Op{"cmd diff pairs=src/a.wsp>dst/a.wsp " + w + " remote=1", true})
+	}
 	if srcThere && dstThere && r.Bool() {
 		// make the destination equal to the source, then diff is clean
 		ops = append(ops, Op{fmt.Sprintf("cmd copy pairs=src/a.wsp>dst/a.wsp %s copynan=1 archive=-1 from=0 until=0", g.opts()), false})
